@@ -9,12 +9,14 @@ N=$1; SAN=""; LIB=$V/.build/repo-rel
 [ "$2" = "asan" ] && SAN="-fsanitize=address,undefined -fno-sanitize-recover=all -fno-omit-frame-pointer"
 # asanlib: additionally link against the sanitizer-instrumented library build (.build/repo-asan, built by vlib.build_repo(asan=True))
 [ "$2" = "asanlib" ] && SAN="-fsanitize=address,undefined -fno-sanitize-recover=all -fno-omit-frame-pointer" && LIB=$V/.build/repo-asan
-mkdir -p $V/.build/harness/moc_$N
+OUT=${VERIF_HARNESS_OUT:-$V/.build/harness/$N}
+MOC=$V/.build/harness/moc_$N; [ -n "${VERIF_HARNESS_OUT:-}" ] && MOC=$OUT.moc.d
+mkdir -p $MOC
 QTFLAGS=$(pkg-config --cflags Qt5Core Qt5Network Qt5Xml Qt5Test)
-INCS="-I$V/harness/cxx -I$R/src/base -I$R/src/client -I$R/src/server -I$R/tests -I$LIB/src -I$V/.build/harness/moc_$N"
+INCS="-I$V/harness/cxx -I$R/src/base -I$R/src/client -I$R/src/server -I$R/tests -I$LIB/src -I$MOC"
 if grep -q Q_OBJECT $V/harness/cxx/$N.cpp; then
-  moc $INCS $QTFLAGS -DQXMPP_VERIF $V/harness/cxx/$N.cpp -o $V/.build/harness/moc_$N/$N.moc
+  moc $INCS $QTFLAGS -DQXMPP_VERIF $V/harness/cxx/$N.cpp -o $MOC/$N.moc
 fi
 exec g++ -std=c++20 -O1 -g $SAN -fPIC -DQXMPP_VERIF $INCS $QTFLAGS \
-  $V/harness/cxx/$N.cpp -o $V/.build/harness/$N \
+  $V/harness/cxx/$N.cpp -o $OUT \
   -L$LIB/src -lQXmppQt5 $(pkg-config --libs Qt5Core Qt5Network Qt5Xml Qt5Test) -Wl,-rpath,$LIB/src
